@@ -264,4 +264,42 @@ fn one_case(ctx: &Ctx, case: u64, l: &mut Local) {
             }
         }
     }
+    // 7. issuers that sign with another algorithm family (HS384 / HS512, P-384, RSA of 2048 / 3072 / 4096
+    // bits, PKCS#1 v1.5 and PSS): what is hidden, how it is hashed (`_sd_alg` names the hash that was used)
+    // and what comes back do not depend on how the credential is signed
+    if case % 16 == 11 {
+        let names: Vec<&str> = keys::EXTRA_ALGS.iter().copied().chain(keys::BIG_RSA.iter().copied()).collect();
+        let an = names[((case / 16) % names.len() as u64) as usize];
+        let alg_name = an.split('/').next().unwrap_or(an).to_string();
+        let mut issuer = sd_jwt_rs::SDJWTIssuer::new(keys::extra_enc(an), Some(alg_name));
+        l.evals += 1;
+        match pipeline::issue_with(&mut issuer, &s.u, &s.strat, cfg.holder, cfg.decoys, cfg.fmt) {
+            Ok(issued) => {
+                for c in &issued.loc.complaints {
+                    l.violate(viol(case, c.kind, &format!("issuer signing with {an}"), format!("structural complaint: {}", c.kind), json!({"input": input(), "at": c.at, "complaint": c.detail, "payload": issued.payload})));
+                }
+                let declared = issued.payload.get("_sd_alg").cloned();
+                if declared.as_ref().map(|d| d != "sha-256").unwrap_or(false) {
+                    // (every digest was just matched as SHA-256 by the locator)
+                    l.violate(viol(case, "sd-alg-misdeclared", &format!("issuer signing with {an}"), format!("_sd_alg = {} while the digests are SHA-256", declared.clone().unwrap_or_default()), json!({"input": input(), "payload": issued.payload})));
+                }
+                let res = match api::holder_new(&issued.sd_jwt, cfg.fmt) {
+                    Outcome::Ok(mut h) => match api::present(&mut h, &sel, kb.as_ref()) {
+                        Outcome::Ok(p) => api::verify(&p, &Resolver::Extra(an), kbpair, cfg.fmt).out,
+                        o => o.map(|_| Value::Null),
+                    },
+                    o => o.map(|_| Value::Null),
+                };
+                match res {
+                    Outcome::Ok(v) if v == expected => l.count("other-signing-algorithms.equal-to-model"),
+                    Outcome::Ok(v) => {
+                        let (at, e, g, _) = first_diff(&expected, &v).unwrap_or_default();
+                        l.violate(viol(case, "claims-differ-from-model", &format!("issuer signing with {an}"), "verified claims differ from V(U,SD,D)".into(), json!({"input": input(), "at": at, "expected": e, "got": g})));
+                    }
+                    other => l.violate(viol(case, "verify", &format!("issuer signing with {an}"), other.panic_signature().unwrap_or_else(|| other.describe()), json!({"input": input(), "history": api::history()}))),
+                }
+            }
+            Err(f) => l.violate(viol(case, "issue", &format!("issuer signing with {an}"), format!("{f:?}").chars().take(200).collect(), json!({"input": input()}))),
+        }
+    }
 }
